@@ -143,6 +143,16 @@ func genBinaryLiteral(r *hx.RNG) (text string, neg bool, m *big.Int, k int64, wa
 	}
 	m = new(big.Int)
 	m.SetString(strings.ToLower(string(ds)), base)
+	cancel := int64(0)
+	if base != 10 && nFrac == 0 && r.Chance(25) {
+		// a short value written with a long mantissa: c x 2^k, to be scaled back by a p exponent of about -k
+		// (the power of two then has more digits than the value: it must still be exact for the value to come out exact)
+		kk := int64(r.Range(40, 200))
+		m = new(big.Int).Lsh(big.NewInt(int64(r.Range(1, 2000))), uint(kk))
+		ds = []byte(m.Text(base))
+		nInt = len(ds)
+		cancel = kk
+	}
 	var b strings.Builder
 	neg = r.Bool()
 	if neg {
@@ -173,9 +183,15 @@ func genBinaryLiteral(r *hx.RNG) (text string, neg bool, m *big.Int, k int64, wa
 		b.Write(ds[:nInt+nFrac])
 		k = 0
 	}
+	if cancel != 0 {
+		hasP = true
+	}
 	if hasP {
 		pexp = int64(r.Range(-300, 300))
-		if r.Chance(20) {
+		if cancel != 0 {
+			pexp = -cancel + int64(r.Range(-12, 12))
+		}
+		if r.Chance(20) && cancel == 0 {
 			pexp = int64(r.Range(-3000, 3000))
 		}
 		fmt.Fprintf(&b, "%c%d", "pP"[r.Intn(2)], pexp)
